@@ -19,13 +19,13 @@ RULE = (
 )
 ASSUMPTIONS = ["callbacks are delivered in the client process (true for the three local executors)"]
 NSHARDS = {"quick": 16, "thorough": 32}
-PER_SHARD = {"quick": 100, "thorough": 1600}
+PER_SHARD = {"quick": 100, "thorough": 600}
 
 
 def shards(tier, seed):
     return [
         {"n": PER_SHARD[tier], "maxdim": 9 if tier == "quick" else 13, "depth": 4 if tier == "quick" else 6,
-         "stores": 40 if tier == "quick" else 600, "watchdog_s": TIMEOUT[tier] - 30}
+         "stores": 40 if tier == "quick" else 240, "watchdog_s": TIMEOUT[tier] - 30}
         for _ in range(NSHARDS[tier])
     ]
 
@@ -185,9 +185,9 @@ def finalize(tier, merged):
     return {
         "rule": RULE,
         "floors": [
-            ("operations whose advertised task count was checked", c.get("ops_checked", 0), 4000 if tier == "quick" else 80000),
-            ("task-end notifications observed", c.get("task_events", 0), 15000 if tier == "quick" else 300000),
-            ("store/to_zarr calls (incl. region stores) whose events were checked", c.get("store_calls", 0), 300 if tier == "quick" else 5000),
+            ("operations whose advertised task count was checked", c.get("ops_checked", 0), 4000 if tier == "quick" else 50000),
+            ("task-end notifications observed", c.get("task_events", 0), 15000 if tier == "quick" else 180000),
+            ("store/to_zarr calls (incl. region stores) whose events were checked", c.get("store_calls", 0), 300 if tier == "quick" else 3500),
         ],
         "assumptions": ASSUMPTIONS,
     }
